@@ -415,6 +415,15 @@ func (g *gen) hostilePut() m.Put {
 	p := m.Put{Key: m.K(g.pick(keys)), Val: 1 + g.rng.Intn(900), Exp: m.NoExp, Sess: m.NoSess, Idx: []m.IdxE{}}
 	p.Deltas = append([]int{}, deltas[g.rng.Intn(len(deltas))]...)
 	p.Pkey = g.rng.Intn(3) > 0
+	// optional fields present but empty / with odd values (OxiaDb.tla "Optional fields of a request"): about
+	// half of the partition keys are "", "/", "a/b", a blank, an internal-looking one; now and then the client
+	// identity is present and empty; expected version -1 and session ids that were never created come from below
+	if p.Pkey && g.rng.Intn(2) == 0 {
+		p.SetPartitionKey(g.pick(hostilePartitionKeys))
+	}
+	if g.rng.Intn(6) == 0 {
+		p.Cidp = true
+	}
 	if g.rng.Intn(3) == 0 {
 		p.Exp = g.exp(p.Key.S())
 	}
@@ -448,6 +457,7 @@ func (g *gen) hostilePut() m.Put {
 	return p
 }
 
+var hostilePartitionKeys = []string{"", "", "", "/", "a/b", " ", "__oxia/x", "pk"}
 var hostileIdxNames = []string{"", "", "a/b", "/", "i/", "/i", "i//j", "\x01", "i\x01b", "__oxia/idx", "%2F", "i"}
 var hostileIdxKeys = []string{"", "", "b/c", "/", "\x01", "b\x01a", "b", "%", "~"}
 
